@@ -782,6 +782,15 @@ raise ValueError."""
             if typeval.target_giname and typeval.ctype:
                 target = self.lookup_giname(typeval.target_giname)
                 target = self.resolve_aliases(target)
+                # The target of an alias of an alias is only resolved in a
+                # later pass; look it up by its C type here
+                while (isinstance(target, ast.Alias)
+                       and not target.target.resolved
+                       and target.target.ctype):
+                    probe = ast.Type(ctype=target.target.ctype)
+                    if not self._resolve_type_from_ctype(probe) or not probe.target_giname:
+                        break
+                    target = self.resolve_aliases(self.lookup_giname(probe.target_giname))
                 if isinstance(target, ast.Type):
                     unaliased = target
             if unaliased == ast.TYPE_UINT64:
